@@ -177,6 +177,58 @@ def check_case(rep, c, variant=0):
         rep.nontrivial.add(json.dumps(c['vars']))
 
 
+def get_nested(d, path):
+    for k in path:
+        d = d[k]
+    return d
+
+
+def check_unordered(rep, c):
+    """Raw data whose rows were recorded out of time order (assembled from
+    pieces, emitted by a rewound engine): whatever order the time vector comes
+    back in, every list is aligned with it - reading cell i of a variable gives
+    the value the raw data holds at time vector[i] - and every time is there."""
+    n = c['n']
+    if n < 2:
+        return
+    rep.evaluations += 1
+    times = [float(i) for i in range(n)]
+    rows = {t: nested([(v['p'], ATOM[v['vals'][i]]()) for v in c['vars']])
+            for i, t in enumerate(times)}
+    order = list(reversed(times))
+    raw = {t: rows[t] for t in order}
+    em = RAMEmitter({})
+    for t in order:
+        em.emit({'table': 'history', 'data': dict(rows[t], time=t)})
+    views = [('timeseries_from_data', timeseries_from_data(raw), False),
+             ('path_timeseries_from_data', path_timeseries_from_data(raw), True),
+             ('get_timeseries', em.get_timeseries(), False),
+             ('get_path_timeseries', em.get_path_timeseries(), True)]
+    for name, ts, flat in views:
+        tv = ts.get('time') if not flat else ts.get('time', ts.get(('time',)))
+        if tv is None or sorted(tv) != times:
+            rep.violation({'kind': 'unordered', 'op': name, 'what': 'time vector'},
+                          'C18 %s of rows recorded at %r: time vector %r' % (name, order, tv),
+                          {'case': c, 'unordered': True})
+            return
+        for v in c['vars']:
+            p = list(v['p'])
+            key = (tuple(p[:-1]) + ((p[-1], 'gram'),)) if v['qty'] else tuple(p)
+            try:
+                col = ts[key] if flat else get_nested(ts, key)
+            except KeyError:
+                col = None
+            exp = [(MAG[v['vals'][int(t)]] if v['qty'] else ATOM[v['vals'][int(t)]]())
+                   for t in tv]
+            if col is None or not eq(list(col), exp):
+                rep.violation({'kind': 'unordered', 'op': name, 'what': 'alignment'},
+                              'C18 %s of rows recorded at %r: time vector %r, %s lists %r; '
+                              'the raw data holds %r at those times'
+                              % (name, order, tv, p, col, exp), {'case': c, 'unordered': True})
+                return
+    rep.nontrivial.add('unordered' + json.dumps(c['vars']))
+
+
 def run(rep, tier, scratch):
     consts = {'MaxVars': 2, 'MaxTimes': 2}
     cases = table.run_table(rep, 'Timeseries', 'Timeseries_' + tier,
@@ -188,6 +240,9 @@ def run(rep, tier, scratch):
         rep.exhaustive = True
     for k, c in enumerate(cases):
         rep.guard(check_case, rep, c, k % 2, what='history', detail=c.get('vars'))
+        if k % 2 == 0:
+            rep.guard(check_unordered, rep, c, what='rows out of time order',
+                      detail=c.get('vars'))
         if k % 3 == 0:
             rep.guard(check_vanishing, rep, c, what='vanishing variable', detail=c.get('vars'))
     rep.traces = len(cases)
